@@ -46,6 +46,7 @@ type gor struct {
 	done chan struct{}
 	st   atomic.Pointer[gstate]
 	seq  int64 // owned by the goroutine
+	late bool  // talks to the unsubscribed topic: parked calls are expected until the final shutdown has returned
 }
 
 func (g *gor) set(s string, inf bool) { g.seq++; g.st.Store(&gstate{s: s, inf: inf, seq: g.seq}) }
@@ -76,8 +77,10 @@ func curGID() int64 {
 }
 
 // spawn starts a registered harness goroutine.  A panic escaping a queue call is a violation ("… or crashing").
-func (h *harness) spawn(name string, f func(g *gor)) *gor {
-	g := &gor{name: name, done: make(chan struct{})}
+func (h *harness) spawn(name string, f func(g *gor)) *gor { return h.spawnOpt(name, false, f) }
+
+func (h *harness) spawnOpt(name string, late bool, f func(g *gor)) *gor {
+	g := &gor{name: name, done: make(chan struct{}), late: late}
 	g.set("run", false)
 	ready := make(chan struct{})
 	go func() {
@@ -157,6 +160,8 @@ func (h *harness) inspect() (stuck []string, fingerprint string, dump string) {
 			return nil, "", ""
 		}
 		switch {
+		case g.late && !h.shutdownDone.Load() && strings.HasPrefix(st.s, "q:") && st.inf && parked(gd.status):
+			// nobody answers on the unsubscribed topic; only the shutdown (not yet done) is required to end this call
 		case strings.HasPrefix(st.s, "q:") && st.inf && parked(gd.status) && strings.Contains(gd.text, queuePkg):
 			stuck = append(stuck, fmt.Sprintf("%s in %s [%s]", g.name, st.s[2:], gd.status))
 			fp = append(fp, fmt.Sprintf("%d/%d", g.gid, st.seq))
